@@ -353,7 +353,16 @@ def gen_op(rng, ai, pool, ctx):
             i = rng.choice(cands)
             return {'alg': ai, 'kind': 'symcall', 'args': [{'k': 'sh', 'i': i}],
                     'call': {'mode': rng.choice(['autopos', 'autokw']), 'vals': vals8}}
-        if u < 0.8 and not pool.graded:
+        if u < 0.65 and not pool.graded:
+            # coefficients named by *position* (p0, p1, ...): the same expressions on the same key set in
+            # another key order are a different element
+            keys, _ = pool.pick_keys(rng)
+            keys = list(keys) or [pool.canon[0]]
+            vals = [{'s': f'p{j}'} if rng.random() < 0.85 else gen_value(rng, 'int') for j in range(len(keys))]
+            target = {'k': rng.choice(['kv', 'kv', 'fkv', 'map']), 'keys': keys, 'vals': vals}
+            return {'alg': ai, 'kind': 'symcall', 'args': [target],
+                    'call': {'mode': rng.choice(['autopos', 'autokw']), 'vals': vals8}}
+        if u < 0.85 and not pool.graded:
             # a fresh symbolic expression (a new object every time, same key set as others in the pool)
             target = gen_symexpr(rng, ai, pool)
             return {'alg': ai, 'kind': 'symcall', 'args': [target],
@@ -507,7 +516,7 @@ def gen_trace(rng, tier='quick', crit_names=(), arm=None):
     ctx['binops'] = ['gp'] + rng.sample(bins, nb)
     ctx['unops'] = rng.sample(uns, rng.randint(2, 4))
     ctx['weights'] = {'bin': 50, 'un': 14, 'meth': 10 if not big else 2, 'reg': rng.choice([0, 15, 30]),
-                      'register': 2, 'symcall': rng.choice([0, 5, 10])}
+                      'register': 2, 'symcall': rng.choice([0, 5, 10, 25])}
     # mirror arm: the same operations, operand for operand, on two algebras of equal dimension and
     # different signature, drawn from the whole operator alphabet (cross-algebra leaks)
     mirror_with = None
@@ -566,8 +575,23 @@ def gen_trace(rng, tier='quick', crit_names=(), arm=None):
             prog.append(op)
         callers.append(prog)
 
+    # the same coefficient expressions on the same key set in another key order, called later (a different
+    # element whose compiled callable must not be confused with the first one's)
+    import copy as _copy
+    for c, prog in enumerate(list(callers)):
+        for op in list(prog):
+            a0 = op['args'][0] if op.get('args') else {}
+            if op['kind'] == 'symcall' and a0.get('k') in ('kv', 'fkv', 'map') and len(a0.get('keys', [])) > 1 \
+                    and any(isinstance(v, dict) and 's' in v for v in a0['vals']) and rng.random() < 0.6:
+                twin = _copy.deepcopy(op)
+                ks = list(a0['keys'])
+                for _ in range(5):
+                    rng.shuffle(ks)
+                    if ks != a0['keys']:
+                        break
+                twin['args'][0]['keys'] = ks
+                callers[rng.randrange(len(callers))].append(twin)
     if mirror_with is not None:
-        import copy as _copy
         for c, prog in enumerate(callers):
             first = [op for op in prog if op['alg'] == 0 and not any(a.get('k') in ('sh', 'other', 'prev') for a in op.get('args', []))]
             mirrored = []
